@@ -72,6 +72,21 @@ Theorem HTPstart_sum_refuted : exists dds, Forall (fun p => 0 <= fst p <= INT32_
 Proof. exists [(300, 2147483000); (400, 2147483647)]. split; [repeat constructor; vm_compute; discriminate | vm_compute; reflexivity]. Qed.
 Print Assumptions HTPstart_sum_refuted.
 
+(** the precondition of the two theorems around here is an invariant of the file states S reaches: after any sequence
+    of reservations, writes, appendable extensions and ref allocations on a created file, the end of file is within
+    [0, 2^31-1] and every descriptor is length-less or lies inside [0, end of file] -- "no descriptor ever wraps" *)
+Theorem created_file_in_range : forall ndds, 0 <= ndds <= 32767 -> h_inv (h_create ndds).
+Proof. exact h_create_inv. Qed.
+Print Assumptions created_file_in_range.
+
+Theorem reachable_descriptors_in_range : forall h v o, (forall n, o <> OHopen n) -> h_inv h -> h_inv (fst (step_h h v o)).
+Proof. exact step_h_inv. Qed.
+Print Assumptions reachable_descriptors_in_range.
+
+Theorem reachable_descriptors_meet_HTPstart_precondition : forall eof e, 0 <= eof <= INT32_MAX -> elem_ok eof e -> dd_ok (e_off e, e_len e).
+Proof. exact elem_ok_dd_ok. Qed.
+Print Assumptions reachable_descriptors_meet_HTPstart_precondition.
+
 (** hfiledd.c HTIupdate_dd *)
 Theorem no_wrap_HTIupdate_dd : forall offset length eof, 0 <= eof <= INT32_MAX -> dd_ok (offset, length) ->
   m_update_dd_eof offset length eof = (if (offset =? -1) && (length =? -1) then eof else Z.max eof (offset + length)) /\
@@ -184,6 +199,11 @@ Proof.
   apply Forall_cons; [left; split; reflexivity|].
   apply Forall_cons; [right; vm_compute; repeat split; discriminate|]. apply Forall_nil.
 Qed.
+Example invariant_not_vacuous :
+  let h := fst (step_h (fst (step_h (h_create 16) v0 (OReserve 100 1 1073741824))) v0 (OReserve 100 2 1073741529)) in
+  h_known h = true /\ h_eof h = 2147483647 /\ length (h_elems h) = 3%nat
+  /\ snd (step_h h v0 (OPut 101 1 1)) = RFail [Some 2147483647].
+Proof. vm_compute. repeat split; reflexivity. Qed.
 Example vinsertpair_at_limit : m_vinsertpair 65534 = (Some 65535, 65535) /\ m_vinsertpair 65535 = (None, 65535).
 Proof. vm_compute. split; reflexivity. Qed.
 Example vsfdefine_at_limit : m_vsfdefine 4 16383 = Some (4, 16383) /\ m_vsfdefine 4 16384 = None /\ m_vsfdefine 1 65536 = None.
